@@ -50,7 +50,23 @@ MRO = {'Point': ['Point'], 'AffineTransformation': ['AffineTransformation'], 'Bo
        'CubicBezier': ['CubicBezier', 'ArcLengthMixin', 'Segment', 'IntersectionsMixin', 'SampleMixin']}
 
 
+def tmatch(a, b):
+    """type equality up to the wildcard '?' (element type of an empty literal list); returns the more specific type or None"""
+    if a == b: return a
+    if a == '?': return b
+    if b == '?': return a
+    if isinstance(a, tuple) and isinstance(b, tuple) and a[0] == b[0]:
+        if a[0] in ('L', 'O'):
+            m = tmatch(a[1], b[1])
+            return (a[0], m) if m is not None else None
+        if a[0] == 'T' and len(a[1]) == len(b[1]):
+            ms = [tmatch(x, y) for x, y in zip(a[1], b[1])]
+            return ('T', tuple(ms)) if all(m is not None for m in ms) else None
+    return None
+
+
 def coqty(t):
+    if t == '?': return '_'
     if t == 'S': return 'T'
     if t == 'B': return 'bool'
     if t == 'P': return 'pt T'
@@ -190,7 +206,7 @@ class Translator:
         if v.ty == 'FL':
             ts = {self.rtype(i) for i in v.items}
             if len(ts) == 1: return ('L', ts.pop())
-            if not v.items: raise Untranslatable('empty literal list needs a type')
+            if not v.items: return ('L', '?')
             raise Untranslatable('heterogeneous list')
         if v.ty == 'TUP': return ('T', tuple(self.rtype(i) for i in v.items))
         return v.ty
@@ -253,7 +269,10 @@ class Translator:
         else:
             cont = lambda e: Val('K', const=None)
             ret = lambda v, e: v
+        if mut: fx.live_stack.append({params[0]})
         body = fx.block(fd.body, env, cont, ret)
+        if body.ty == 'FL' and not body.items and (cls, name) in RET:
+            body = Val(RET[(cls, name)], '[]')
         text = self.text(body)
         rty = self.rtype(body) if not (body.ty == 'K' and body.const is None) else None
         if rty is None: raise Untranslatable(f'{cls}.{name} returns None')
@@ -264,6 +283,7 @@ class Translator:
         return self.done[key]
 
 
+RET = {('Line', 'findExtremes'): ('L', 'S')}
 MODSIG = {
     ('utils/__init__.py', 'quadraticRoots'): ['S', 'S', 'S'],
 }
@@ -276,6 +296,12 @@ class FunTx:
         self.tr, self.path, self.cls, self.fd = tr, path, cls, fd
         self.src = module(path)[0]
         self.localfuns = {}
+        self.live_stack = []
+        self.counter = 0
+
+    def fresh(self, base):
+        self.counter += 1
+        return f'{base}_{self.counter}'
 
     def fail(self, msg, node=None):
         where = f'{self.path}:{getattr(node, "lineno", self.fd.lineno)}'
@@ -391,6 +417,8 @@ class FunTx:
             return Val('B', f'(isnil {v.tx})') if negate else Val('B', f'(negb (isnil {v.tx}))')
         if v.ty == 'FL':
             return Val('K', const=(not v.items) if negate else bool(v.items))
+        if v.ty == 'LEN':
+            return Val('B', f'(isnil {v.tx})') if negate else Val('B', f'(negb (isnil {v.tx}))')
         if isinstance(v.ty, tuple) and v.ty[0] == 'O':
             if v.ty[1] == 'S':   # Optional[float]: None and 0.0 are both falsy
                 t = f'(match {v.tx} with None => false | Some z_ => negb (eqb O z_ (ofZ O 0)) end)'
@@ -461,6 +489,8 @@ class FunTx:
         if a.ty == 'TUP' and b.ty == 'TUP' and len(a.items) == len(b.items):
             us = [self.unify(x, y, n) for x, y in zip(a.items, b.items)]
             return ('(' + ', '.join(u[0] for u in us) + ')', '(' + ', '.join(u[1] for u in us) + ')', ('T', tuple(u[2] for u in us)))
+        isbool = lambda v: v.ty == 'B' or (v.ty == 'K' and isinstance(v.const, bool))
+        if isbool(a) and isbool(b): return (tr.text(a), tr.text(b), 'B')
         isnone = lambda v: v.ty == 'K' and (v.const is None or v.const is False)
         if isnone(a) and isnone(b): self.fail('both branches None', n)
         if isnone(a) or isnone(b):
@@ -468,13 +498,21 @@ class FunTx:
             oty = tr.rtype(o)
             if isinstance(oty, tuple) and oty[0] == 'O':
                 return ('None' if isnone(a) else tr.text(a), 'None' if isnone(b) else tr.text(b), oty)
-            s = f'(Some {tr.text(o)})'
+            s = f'(Some ({tr.text(o)}))'
             return ('None' if isnone(a) else s, 'None' if isnone(b) else s, ('O', oty))
+        if a.ty == 'FL' and not a.items and not (b.ty == 'FL' and not b.items):
+            tb = tr.rtype(b)
+            if isinstance(tb, tuple) and tb[0] == 'L': return ('[]', tr.text(b), tb)
+        if b.ty == 'FL' and not b.items and not (a.ty == 'FL' and not a.items):
+            ta = tr.rtype(a)
+            if isinstance(ta, tuple) and ta[0] == 'L': return (tr.text(a), '[]', ta)
+        if a.ty == 'FL' and not a.items and b.ty == 'FL' and not b.items:
+            return ('[]', '[]', ('L', '?'))
         ta, tb = tr.rtype(a), tr.rtype(b)
-        if ta == tb: return (tr.text(a), tr.text(b), ta)
+        if tmatch(ta, tb) is not None: return (tr.text(a), tr.text(b), tmatch(ta, tb))
         for x, y in ((ta, tb), (tb, ta)):
             if isinstance(x, tuple) and x[0] == 'O' and x[1] == y:
-                return (tr.text(a) if ta == x else f'(Some {tr.text(a)})', tr.text(b) if tb == x else f'(Some {tr.text(b)})', x)
+                return (tr.text(a) if ta == x else f'(Some ({tr.text(a)}))', tr.text(b) if tb == x else f'(Some ({tr.text(b)}))', x)
         if a.ty == 'FL' and not a.items and isinstance(tb, tuple) and tb[0] == 'L': return ('[]', tr.text(b), tb)
         if b.ty == 'FL' and not b.items and isinstance(ta, tuple) and ta[0] == 'L': return (tr.text(a), '[]', ta)
         self.fail(f'branches of different types {ta!r} / {tb!r}', n)
@@ -561,15 +599,18 @@ class FunTx:
         x = g.target.id
         if it.ty == 'FL':
             out = []
+            dynamic = False
             for item in it.items:
                 e2 = dict(env); e2[x] = item
                 keep = True
                 for c in g.ifs:
                     cv = self.truth(self.expr(c, e2), n)
-                    if cv.ty != 'K': self.fail('dynamic filter over fixed list', n)
+                    if cv.ty != 'K': dynamic = True; break
                     keep = keep and cv.const
+                if dynamic: break
                 if keep: out.append(self.expr(n.elt, e2))
-            return Val('FL', items=out)
+            if not dynamic: return Val('FL', items=out)
+            it = Val(self.tr.rtype(it), self.tr.text(it))
         if isinstance(it.ty, tuple) and it.ty[0] == 'L':
             et = it.ty[1]
             e2 = dict(env); e2[x] = Val(et, 'v_' + x)
@@ -679,6 +720,8 @@ class FunTx:
                 return args[0]
             if name == 'print':
                 return Val('K', const=None)
+            if name == 'type' and len(args) == 1 and args[0].ty in CLASS_OF:
+                return Val('K', const=('class', CLASS_OF[args[0].ty]))
             if name == 'range':
                 if all(a.ty == 'I' for a in args):
                     return Val('FL', items=[Val('I', const=i) for i in range(*[a.const for a in args])])
@@ -780,7 +823,7 @@ class FunTx:
         lets = []
         for p, v in zip(params, vals):
             if v.tx is not None and not self.tr.atomic(v) and v.ty in ('S', 'P'):
-                nm = self.tr.fresh('a_' + p)
+                nm = self.fresh('a_' + p)
                 lets.append(f'let {nm} := {v.tx} in ')
                 env[p] = Val(v.ty, nm)
             else: env[p] = v
@@ -802,6 +845,23 @@ class FunTx:
                 if isinstance(x, ast.Return): return True
         return False
 
+    def loads(self, stmts):
+        out = set()
+        for st in stmts:
+            for x in ast.walk(st):
+                if isinstance(x, ast.Name): out.add(x.id)
+        return out
+
+    def live_after(self, rest):
+        out = self.loads(rest)
+        for l in self.live_stack: out |= l
+        return out
+
+    def with_live(self, names, thunk):
+        self.live_stack.append(set(names))
+        try: return thunk()
+        finally: self.live_stack.pop()
+
     def assigned(self, stmts, env):
         out = []
         def add(nm):
@@ -816,7 +876,7 @@ class FunTx:
                 if isinstance(x, ast.Expr) and isinstance(x.value, ast.Call) and isinstance(x.value.func, ast.Attribute) \
                         and isinstance(x.value.func.value, ast.Name):
                     add(x.value.func.value.id)
-                if isinstance(x, ast.For) and isinstance(x.iter, ast.Name): add(x.iter.id)
+                if isinstance(x, ast.For) and isinstance(x.iter, ast.Name) and x.iter.id in env and env[x.iter.id].ty == 'FL': add(x.iter.id)
         return out
 
     def bind(self, name, v, env, k):
@@ -829,7 +889,7 @@ class FunTx:
                 lets, items = [], []
                 for i, it in enumerate(v.items):
                     if it.tx is not None and not tr.atomic(it) and it.ty not in ('FL', 'TUP', 'I', 'K'):
-                        nm = tr.fresh(f'v_{name}{i}')
+                        nm = self.fresh(f'v_{name}{i}')
                         lets.append((nm, it.tx)); items.append(Val(it.ty, nm))
                     else: items.append(it)
                 e2[name] = Val(v.ty, items=items)
@@ -839,7 +899,7 @@ class FunTx:
                 return self.retext(r, t)
             e2[name] = v
             return k(e2)
-        nm = 'v_' + name
+        nm = self.fresh('v_' + name)
         e2[name] = Val(v.ty, nm)
         r = k(e2)
         return self.retext(r, f'let {nm} := {v.tx} in\n  {tr.text(r)}')
@@ -902,8 +962,9 @@ class FunTx:
                 e2 = dict(env)
                 pat = None
                 for nm, ty in zip(names, v.ty[1]):
-                    e2[nm] = Val(ty, 'v_' + nm)
-                    pat = f'v_{nm}' if pat is None else f'({pat}, v_{nm})'
+                    fn = self.fresh('v_' + nm)
+                    e2[nm] = Val(ty, fn)
+                    pat = fn if pat is None else f'({pat}, {fn})'
                 r = k(e2)
                 return self.retext(r, f"let '{pat} := {v.tx} in\n  {tr.text(r)}")
             self.fail(f'unpack of {v.ty!r}', s)
@@ -956,9 +1017,45 @@ class FunTx:
                 return self.bind(nm, nv, env, k)
         self.fail('statement-level call', s)
 
+    def narrow(self, test, env):
+        """Optional-typed name tested for None / truthiness -> (name, value, mode)"""
+        neg = False
+        t = test
+        if isinstance(t, ast.UnaryOp) and isinstance(t.op, ast.Not): neg = True; t = t.operand
+        if isinstance(t, ast.Name) and t.id in env and isinstance(env[t.id].ty, tuple) and env[t.id].ty[0] == 'O':
+            return (t.id, env[t.id], 'falsy' if neg else 'truthy')
+        if isinstance(t, ast.Compare) and len(t.ops) == 1 and isinstance(t.left, ast.Name) and t.left.id in env \
+                and isinstance(env[t.left.id].ty, tuple) and env[t.left.id].ty[0] == 'O' \
+                and isinstance(t.comparators[0], ast.Constant) and t.comparators[0].value is None:
+            isnone = isinstance(t.ops[0], (ast.Is, ast.Eq))
+            if neg: isnone = not isnone
+            return (t.left.id, env[t.left.id], 'isnone' if isnone else 'notnone')
+        return None
+
     def stmt_if(self, s, rest, env, cont, ret):
         tr = self.tr
+        nar = self.narrow(s.test, env)
+        if nar is not None:
+            name, ov, mode = nar
+            inner = ov.ty[1]
+            z = self.fresh('z')
+            envN = dict(env); envN[name] = Val('K', const=None)
+            envS = dict(env); envS[name] = Val(inner, z)
+            cN = Val('K', const=mode in ('falsy', 'isnone'))
+            if mode == 'isnone': cS = Val('K', const=False)
+            elif mode == 'notnone': cS = Val('K', const=True)
+            elif inner == 'S':
+                cS = Val('B', f'(eqb O {z} (ofZ O 0))') if mode == 'falsy' else Val('B', f'(neqb O {z} (ofZ O 0))')
+            else: cS = Val('K', const=(mode == 'truthy'))
+            rN = self.if_with(cN, s, rest, envN, cont, ret)
+            rS = self.if_with(cS, s, rest, envS, cont, ret)
+            x, y, ty = self.unify(rN, rS, s)
+            return Val(ty, f'(match {ov.tx} with None => {x} | Some {z} => {y} end)')
         c = self.truth(self.expr(s.test, env), s)
+        return self.if_with(c, s, rest, env, cont, ret)
+
+    def if_with(self, c, s, rest, env, cont, ret):
+        tr = self.tr
         if c.ty == 'K':
             return self.block((s.body if c.const else s.orelse) + rest, env, cont, ret)
         rb, ro = self.always_returns(s.body), self.always_returns(s.orelse)
@@ -968,21 +1065,25 @@ class FunTx:
             b = self.block(s.orelse + ([] if ro else rest), env, cont, ret)
             if a.ty == 'K' and a.const is None and b.ty == 'K' and b.const is None: return a
             return self.join(c, a, b, s)
-        names = [v for v in self.assigned(s.body + s.orelse, env)]
+        live = self.live_after(rest)
+        names = [v for v in self.assigned(s.body + s.orelse, env) if v in live]
+        if not names: return self.block(rest, env, cont, ret)
         def branch(stmts):
-            return self.block(stmts, env, lambda e: Val('TUP', items=[self.need(e, v, s) for v in names]), lambda v, e: self.fail('return in joined branch', s))
+            return self.with_live(names, lambda: self.block(stmts, env, lambda e: Val('TUP', items=[self.need(e, v, s) for v in names]), lambda v, e: self.fail('return in joined branch', s)))
         a, b = branch(s.body), branch(s.orelse)
         # a, b are TUP possibly wrapped in lets: normalise through text
         x, y, ty = self.unify_wrapped(a, b, names, s)
         e2 = dict(env)
         if len(names) == 1:
-            e2[names[0]] = Val(ty[1][0], 'v_' + names[0])
-            pat = 'v_' + names[0]
+            fn = self.fresh('v_' + names[0])
+            e2[names[0]] = Val(ty[1][0], fn)
+            pat = fn
         else:
             pat = None
             for nm, t in zip(names, ty[1]):
-                e2[nm] = Val(t, 'v_' + nm)
-                pat = f'v_{nm}' if pat is None else f'({pat}, v_{nm})'
+                fn = self.fresh('v_' + nm)
+                e2[nm] = Val(t, fn)
+                pat = fn if pat is None else f'({pat}, {fn})'
             pat = "'" + pat
         r = self.block(rest, e2, cont, ret)
         return self.retext(r, f'let {pat} := (if {c.tx} then {x} else {y}) in\n  {tr.text(r)}')
@@ -1001,7 +1102,8 @@ class FunTx:
                 return x, y, ('T', (t,))
             return self.unify(a, b, s)
         ta, tb = tr.rtype(a), tr.rtype(b)
-        if ta != tb: self.fail(f'joined branches differ: {ta!r} / {tb!r}', s)
+        if tmatch(ta, tb) is None: self.fail(f'joined branches differ: {ta!r} / {tb!r}', s)
+        ta = tmatch(ta, tb)
         if len(names) == 1: return tr.text(a), tr.text(b), ('T', (ta,)) if not (isinstance(ta, tuple) and ta[0] == 'T') else ta
         return tr.text(a), tr.text(b), ta
 
@@ -1022,7 +1124,7 @@ class FunTx:
                             e2 = dict(e2); e2[itname] = Val('FL', items=new)
                     return go(i + 1, e2)
                 return self.assign(s.target, items[i], e, lambda e1: self.block(s.body, e1, after, ret), s)
-            return go(0, env)
+            return self.with_live(self.loads(s.body) | self.loads(rest), lambda: go(0, env))
         if isinstance(it.ty, tuple) and it.ty[0] == 'L':
             if not isinstance(s.target, ast.Name): self.fail('dynamic for target', s)
             x = s.target.id
@@ -1035,24 +1137,30 @@ class FunTx:
                 body = self.block(s.body, e1, lambda e: none, lambda v, e: Val('SOME', items=[ret(v, e)]))
                 bt, rty = self.optionise(body, s)
                 r = self.block(rest, env, cont, ret)
-                nm = tr.fresh('r')
+                nm = self.fresh('r')
                 x_, y_, ty = self.unify(Val(rty, nm), r, s)
                 return Val(ty, f'(match find_first (fun v_{x} => {bt}) {it.tx} with Some {nm} => {x_} | None => {y_} end)')
             names = [v for v in self.assigned(s.body, env) if v != x]
             if not names: return self.block(rest, env, cont, ret)
             accs = [self.need(env, v, s) for v in names]
             tys = [tr.rtype(a) for a in accs]
-            for nm, t in zip(names, tys): e1[nm] = Val(t, 'v_' + nm)
-            body = self.block(s.body, e1, lambda e: Val('TUP', items=[self.need(e, v, s) for v in names]), lambda v, e: self.fail('return in fold', s))
+            inner = {nm: self.fresh('v_' + nm) for nm in names}
+            for nm, t in zip(names, tys): e1[nm] = Val(t, inner[nm])
+            body = self.with_live(names, lambda: self.block(s.body, e1, lambda e: Val('TUP', items=[self.need(e, v, s) for v in names]), lambda v, e: self.fail('return in fold', s)))
             pat = None
-            for nm in names: pat = f'v_{nm}' if pat is None else f'({pat}, v_{nm})'
+            for nm in names: pat = inner[nm] if pat is None else f'({pat}, {inner[nm]})'
             init = tr.text(Val('TUP', items=accs)) if len(accs) > 1 else tr.text(accs[0])
             bt = tr.text(body) if len(accs) > 1 or body.ty != 'TUP' else tr.text(body.items[0])
             e2 = dict(env)
-            for nm, t in zip(names, tys): e2[nm] = Val(t, 'v_' + nm)
+            outer = {nm: self.fresh('v_' + nm) for nm in names}
+            opat = None
+            for nm, t in zip(names, tys):
+                e2[nm] = Val(t, outer[nm])
+                opat = outer[nm] if opat is None else f'({opat}, {outer[nm]})'
             r = self.block(rest, e2, cont, ret)
             lp = "'" + pat if len(names) > 1 else pat
-            return self.retext(r, f"let {lp} := fold_left (fun {lp} v_{x} => {bt}) {it.tx} {init} in\n  {tr.text(r)}")
+            olp = "'" + opat if len(names) > 1 else opat
+            return self.retext(r, f"let {olp} := fold_left (fun {lp} v_{x} => {bt}) {it.tx} {init} in\n  {tr.text(r)}")
         self.fail(f'for over {it.ty!r}', s)
 
     def optionise(self, body, s):
@@ -1063,7 +1171,7 @@ class FunTx:
             if v.ty == 'SOME':
                 inner = v.items[0]
                 tys.append(tr.rtype(inner))
-                return f'(Some {tr.text(inner)})'
+                return f'(Some ({tr.text(inner)}))'
             if v.ty == 'K' and v.const is None: return 'None'
             self.fail('find-first body too complex', s)
         t = walk(body) if body.ty in ('SOME', 'K') else None
@@ -1078,7 +1186,7 @@ _orig_unify = FunTx.unify
 def _unify_some(self, a, b, n):
     if a.ty == 'SOME' or b.ty == 'SOME':
         def one(v):
-            if v.ty == 'SOME': return f'(Some {self.tr.text(v.items[0])})', self.tr.rtype(v.items[0])
+            if v.ty == 'SOME': return f'(Some ({self.tr.text(v.items[0])}))', self.tr.rtype(v.items[0])
             if v.ty == 'K' and v.const is None: return 'None', None
             if v.ty == 'OPTX': return v.tx, v.const
             self.fail('find-first branch', n)
@@ -1096,17 +1204,18 @@ FunTx.join = _join_some
 _orig_opt = FunTx.optionise
 def _optionise(self, body, s):
     if body.ty == 'OPTX': return body.tx, body.const
+    if isinstance(body.ty, tuple) and body.ty[0] == 'O': return body.tx, body.ty[1]
     return _orig_opt(self, body, s)
 FunTx.optionise = _optionise
 _orig_retext = FunTx.retext
 def _retext(self, r, t):
     if r.ty == 'OPTX': return Val('OPTX', t, const=r.const)
-    if r.ty == 'SOME': return Val('OPTX', t.replace(self.tr.text(r.items[0]), self.tr.text(r.items[0])) if False else f'(Some {self.tr.text(r.items[0])})' if t == self.tr.text(r) else t, const=self.tr.rtype(r.items[0]))
+    if r.ty == 'SOME': return Val('OPTX', t.replace(self.tr.text(r.items[0]), self.tr.text(r.items[0])) if False else f'(Some ({self.tr.text(r.items[0])}))' if t == self.tr.text(r) else t, const=self.tr.rtype(r.items[0]))
     return _orig_retext(self, r, t)
 FunTx.retext = _retext
 _orig_text = Translator.text
 def _text(self, v):
-    if v.ty == 'SOME': return f'(Some {self.text(v.items[0])})'
+    if v.ty == 'SOME': return f'(Some ({self.text(v.items[0])}))'
     return _orig_text(self, v)
 Translator.text = _text
 _orig_rtype = Translator.rtype
@@ -1120,11 +1229,30 @@ Translator.rtype = _rtype
 # ----------------------------------------------------------------------------- what to translate
 TARGETS = [
     ('Point', '__add__'), ('Point', '__sub__'), ('Point', '__mul__'), ('Point', '__truediv__'), ('Point', 'dot'),
-    ('Point', 'lerp'),
-    ('Line', 'pointAtTime'), ('QuadraticBezier', 'pointAtTime'), ('CubicBezier', 'pointAtTime'),
-    ('Line', 'splitAtTime'), ('QuadraticBezier', 'splitAtTime'), ('CubicBezier', 'splitAtTime'),
-    ('QuadraticBezier', 'derivative'), ('CubicBezier', 'derivative'),
+    ('Point', 'lerp'), ('Point', '__eq__'), ('Point', 'squareMagnitude'), ('Point', 'magnitude'), ('Point', 'toUnitVector'),
+    ('Point', 'angle'), ('Point', 'fromAngle'), ('Point', 'rotated'), ('Point', 'rotate'), ('Point', 'squareDistanceFrom'),
+    ('Point', 'distanceFrom'), ('Point', 'transformed'), ('Point', 'transform'), ('Point', 'rounded'), ('Point', 'slope'),
+    ('mod:utils/__init__.py', 'quadraticRoots'),
+    ('AffineTransformation', 'apply'), ('AffineTransformation', 'apply_backwards'), ('AffineTransformation', 'translation'),
+    ('AffineTransformation', 'translate'), ('AffineTransformation', 'scaling'), ('AffineTransformation', 'scale'),
+    ('AffineTransformation', 'reflection'), ('AffineTransformation', 'reflect'), ('AffineTransformation', 'rotation'),
+    ('AffineTransformation', 'rotate'), ('AffineTransformation', 'invert'),
+    ('BoundingBox', 'includes'), ('BoundingBox', 'overlaps'), ('BoundingBox', 'area'),
 ]
+for _c in ('Line', 'QuadraticBezier', 'CubicBezier'):
+    TARGETS += [(_c, m) for m in ('pointAtTime', 'splitAtTime', 'translated', 'rotated', 'scaled', 'transformed',
+                                  'alignmentTransformation', 'aligned', 'reversed', 'tangentAtTime', 'normalAtTime',
+                                  'startAngle', 'endAngle', 'curvatureAtTime', 'area', 'length', 'lengthAtTime')]
+    TARGETS += [(_c, '_findRoots', ('x',)), (_c, '_findRoots', ('y',))]
+TARGETS += [('QuadraticBezier', 'derivative'), ('CubicBezier', 'derivative'),
+            ('Line', 'tOfPoint'), ('Line', 'slope'), ('Line', 'intercept'), ('Line', 'findExtremes'),
+            ('QuadraticBezier', 'tOfPoint'), ('QuadraticBezier', '_findDRoots'), ('QuadraticBezier', 'findExtremes'),
+            ('QuadraticBezier', 'toCubicBezier'),
+            ('CubicBezier', '_findDRoots'), ('CubicBezier', 'findExtremes', (False,)), ('CubicBezier', 'hasLoop'),
+            ('Line', '_bothPointsAreOnSameSideOfOrigin'), ('Line', '_line_line_intersections'),
+            ('QuadraticBezier', '_curve_line_intersections_t'), ('CubicBezier', '_curve_line_intersections_t'),
+            ('QuadraticBezier', '_curve_line_intersections'), ('CubicBezier', '_curve_line_intersections'),
+            ]
 
 
 def header(file, deps):
